@@ -119,6 +119,9 @@ func mkHistoryLines(g *mkGen, rnd *rand.Rand, n int, runnerSafe bool) []string {
 type mkScenario struct {
 	pre, tail []string
 	bodies    [][]string
+	// texts of the options (marked-up lines of the pool; nil: plain `choice<i>`): all options of a
+	// group are parsed in a row by the runner's parser before the host sees any of them
+	optTexts []string
 	// every line is preceded by a line whose inline expression fails to evaluate after some
 	// text and markup have been assembled: the runner reports the error and moves on, and
 	// the line shown next must still be parsed as if nothing had happened
@@ -159,7 +162,11 @@ func (s mkScenario) script() string {
 		b.WriteString(l + "\n")
 	}
 	for i, body := range s.bodies {
-		fmt.Fprintf(&b, "-> choice%d\n", i)
+		if s.optTexts != nil {
+			b.WriteString("-> " + s.optTexts[i] + "\n")
+		} else {
+			fmt.Fprintf(&b, "-> choice%d\n", i)
+		}
 		for _, l := range body {
 			if s.poison {
 				b.WriteString("    " + mkPoisonLine + "\n")
@@ -230,6 +237,11 @@ func (s mkScenario) frontEndKeeps(script string) (ok bool) {
 			if !same(o.Statements, s.bodies[i]) {
 				return
 			}
+			if s.optTexts != nil {
+				if t, ok := mkLineText(&tree.Statement{LineStatement: o.LineStatement}); !ok || t != s.optTexts[i] {
+					return
+				}
+			}
 		}
 		ok = true
 	})
@@ -249,6 +261,11 @@ func (s mkScenario) run(script string, choices []int) (lines []string, res []mkR
 		return nil, nil, false
 	}
 	choice := 0
+	type keptRes struct {
+		at int // index into lines / res
+		pr *markup.ParseResult
+	}
+	var kept []keptRes
 	expectLine := func(l string) bool {
 		var r mkRes
 		if s.poison {
@@ -269,6 +286,7 @@ func (s mkScenario) run(script string, choices []int) (lines []string, res []mkR
 			case el == nil || el.Line == nil:
 				r = mkFail("desync")
 			default:
+				kept = append(kept, keptRes{len(lines), &el.Line.ParseResult})
 				r = mkConvertResult(&el.Line.ParseResult)
 			}
 		}) {
@@ -290,6 +308,19 @@ func (s mkScenario) run(script string, choices []int) (lines []string, res []mkR
 		guarded(func() {
 			el, err := runner.Next(choice)
 			gotOptions = err == nil && el != nil && len(el.Options) == len(s.bodies)
+			if gotOptions && s.optTexts != nil {
+				for i := range el.Options {
+					if el.Options[i].Line == nil {
+						gotOptions = false
+						return
+					}
+				}
+				for i := range el.Options {
+					pr := &el.Options[i].Line.ParseResult
+					kept = append(kept, keptRes{len(lines), pr})
+					lines, res = append(lines, s.optTexts[i]), append(res, mkConvertResult(pr))
+				}
+			}
 		})
 		if !gotOptions {
 			return nil, nil, false
@@ -304,6 +335,17 @@ func (s mkScenario) run(script string, choices []int) (lines []string, res []mkR
 			if !expectLine(l) {
 				return nil, nil, false
 			}
+		}
+	}
+	// what the host was given earlier is still what it was (a result does not change afterwards)
+	for _, k := range kept {
+		var again mkRes
+		if !guarded(func() { again = mkConvertResult(k.pr) }) {
+			again = mkFail("panic")
+		}
+		if mkCanon(again) != mkCanon(res[k.at]) || mkStr(again.Text) != mkStr(res[k.at].Text) {
+			again.Later = true
+			lines, res = append(lines, lines[k.at]), append(res, again)
 		}
 	}
 	return lines, res, true
@@ -364,7 +406,7 @@ func markupHistory(m map[string]string) error {
 			bodies[i] = cpsAll(sc.bodies[i])
 		}
 		return map[string]any{"kind": "runner", "pre": cpsAll(sc.pre), "tail": cpsAll(sc.tail), "bodies": bodies, "choices": choices,
-			"poison": sc.poison}
+			"poison": sc.poison, "opttexts": cpsAll(sc.optTexts)}
 	}
 	h := 0
 	nDirect, nRunnerRuns, nRunnerSkipped, nFailing := 0, 0, 0, 0
@@ -379,9 +421,30 @@ func markupHistory(m map[string]string) error {
 		nDirect++
 		cases = append(cases, map[string]any{"kind": "direct", "lines": cpsAll(lines)})
 		reused := &markup.LineParser{}
+		type keptRes struct {
+			line string
+			pr   *markup.ParseResult
+			was  mkRes
+		}
+		var kept []keptRes
 		for _, l := range lines {
 			record("fresh", l, mkParse(&markup.LineParser{}, l))
-			record("reused", l, mkParse(reused, l))
+			r, pr := mkParseKeep(reused, l)
+			record("reused", l, r)
+			if pr != nil {
+				kept = append(kept, keptRes{l, pr, r})
+			}
+		}
+		// a result stays what it was when it was returned, whatever the parser is used for afterwards
+		for _, k := range kept {
+			var again mkRes
+			if !guarded(func() { again = mkConvertResult(k.pr) }) {
+				again = mkFail("panic")
+			}
+			if mkCanon(again) != mkCanon(k.was) || mkStr(again.Text) != mkStr(k.was.Text) {
+				again.Later = true
+				record("reused", k.line, again)
+			}
 		}
 	}
 	if f := m["cases"]; f != "" { // replay of stored histories: [{"kind":"direct","lines":[[cps]..]} | {"kind":"runner",...}]
@@ -398,6 +461,7 @@ func markupHistory(m map[string]string) error {
 				Bodies  [][][]int `json:"bodies"`
 				Choices []int     `json:"choices"`
 				Poison  bool      `json:"poison"`
+				OptText [][]int   `json:"opttexts"`
 			}
 			if err := json.Unmarshal(raw, &c); err != nil {
 				return err
@@ -414,6 +478,9 @@ func markupHistory(m map[string]string) error {
 				continue
 			}
 			sc := mkScenario{pre: strs(c.Pre), tail: strs(c.Tail), poison: c.Poison}
+			if len(c.OptText) > 0 {
+				sc.optTexts = strs(c.OptText)
+			}
 			for _, b := range c.Bodies {
 				sc.bodies = append(sc.bodies, strs(b))
 			}
